@@ -15,7 +15,7 @@ SCOPE = {
     'C04': ['server::streaming::partitions', 'server::streaming::segments', 'server::streaming::persistence', 'server::compat'],
     'C05': ['server::state', 'server::binary::handlers', 'server::http', 'server::streaming::systems'],
     'C06': ['server::streaming::systems', 'server::streaming::streams', 'server::streaming::topics', 'server::state::system'],
-    'C07': ['server::streaming::partitions::consumer_offsets', 'server::streaming::systems::consumer_offsets', 'server::streaming::topics::consumer_offsets', 'server::streaming::partitions::storage', 'server::streaming::polling_consumer'],
+    'C07': ['server::streaming::partitions::consumer_offsets', 'server::streaming::systems::consumer_offsets', 'server::streaming::topics::consumer_offsets', 'server::streaming::partitions::storage', 'server::streaming::polling_consumer', 'server::streaming::topics::consumer_groups'],
     'C08': ['server::streaming::topics::consumer_group', 'server::streaming::systems::consumer_groups', 'server::streaming::clients'],
     'C09': ['server::streaming::users', 'server::streaming::systems', 'server::http::jwt', 'server::binary::handlers', 'server::http'],
     'C10': ['server::streaming::users', 'server::streaming::personal_access_tokens', 'server::streaming::systems::users', 'server::streaming::systems::personal_access_tokens', 'server::http::jwt', 'server::streaming::session'],
@@ -32,14 +32,23 @@ SCOPE = {
 }
 
 
-FLOORS = {'C01': 66, 'C02': 68, 'C03': 160, 'C04': 62, 'C05': 100, 'C06': 126, 'C07': 8, 'C08': 4, 'C09': 136, 'C10': 49, 'C11': 4, 'C12': 62,
-          'C13': 137, 'C14': 68, 'C15': 34, 'C16': 224, 'C17': 95, 'C18': 53, 'C19': 98, 'C20': 61}   # ~80 % of the instances counted on the pinned tree
+FLOORS = {'C01': 66, 'C02': 80, 'C03': 160, 'C04': 62, 'C05': 100, 'C06': 126, 'C07': 23, 'C08': 32, 'C09': 136, 'C10': 61, 'C11': 4, 'C12': 62,
+          'C13': 137, 'C14': 68, 'C15': 71, 'C16': 224, 'C17': 95, 'C18': 53, 'C19': 98, 'C20': 61}   # ~80 % of the instances counted on the pinned tree
 
 
 def _argname(b, c, a):
     f = canon(b.pexpr_operand(a, 0, frozenset(), (c.bb, 't')), 0, 1)
     m = re.fullmatch(r'(?:[\w\.]+\.)?(\w+)', f)
     return m.group(1) if m else None
+
+
+def in_scope(ctx, fn, prop):
+    """fn (a def path) belongs to the modules of the property: by its path (`<type path>::method`) or by the module
+    its impl block is written in (methods of Topic live in topics::messages, topics::consumer_groups, …)"""
+    rec = ctx.facts.fns.get(fn) or {}
+    mod = rec.get('mod') or ''
+    f = fn.lstrip('<')
+    return any(f.startswith(p) or mod.startswith(p.rstrip(':')) for p in SCOPE[prop])
 
 
 def _same(arg, par):
@@ -79,7 +88,7 @@ def check(ctx, rep, prop, floor=None):
     n = 0
     for d, c, pn, pt, names in sites(ctx):
         key = ctx.user_fn_of(d)
-        if not any(key.lstrip('<').startswith(p) or c.name.lstrip('<').startswith(p) for p in pre):
+        if not (in_scope(ctx, key, prop) or in_scope(ctx, c.name, prop)):
             continue
         for i in range(len(pn)):
             others = [j for j in range(len(pn)) if j != i and pt[j] == pt[i]]
